@@ -57,7 +57,8 @@ def stepLine (st : St) (line : String) : St × String :=
       let p := SOP.init s a n
       (.sop p, s!"{storageSize s a} {p.avail}")
     | _, _, _ => bad
-  | ["reset", "heap", l] =>
+  | "reset" :: "heap" :: l :: _ =>
+    -- an optional 4th word selects the debug / release build of the C code: same model
     match l.toNat? with
     | some l => (.heap ⟨64, l⟩ Heap.init [], "ok")
     | none => bad
